@@ -20,6 +20,9 @@ RAWCUR = ["A(0) A(1) SR(0,0,0) Z", "A(0) A(1) SR(0,0,1) T(0,1) Z", "A(0) A(1) SR
 # one slow peer (its one-slot queue is full) must not deprive the other peers: blocking sends (the non-blocking form is open finding F6b)
 SB1 = ["A(0) A(1) S(0,1) S(1,1) T(1,1) S(2,1) Z", "A(0) A(1) S(0,1) S(1,1) T(0,1) S(2,1) Z", "A(0) A(1) S(0,1) S(1,1) S(2,1) T(1,1) T(1,1) S(3,1) Z",
        "A(0) S(0,1) S(1,1) A(1) S(2,1) T(1,1) S(3,1) Z", "A(0) A(1) S(0,1) S(1,1) T(1,1) T(1,1) S(2,1) T(1,1) Z"]
+# NNG_OPT_RECVBUF changed while messages are buffered and the ring has wrapped: arrival order kept, only what no longer fits is dropped
+CUR += ["Q(2) A(0) W(0) W(0) R(0,0) W(0) Q(4) R(1,0) R(2,0) Z", "Q(2) A(0) W(0) W(0) R(0,0) W(0) Q(2) R(1,0) R(2,0) Z", "Q(4) A(0) W(0) W(0) W(0) R(0,0) W(0) Q(2) R(1,0) R(2,0) Z",
+        "Q(2) A(0) A(1) W(0) W(1) R(0,0) W(0) Q(8) R(1,0) R(2,0) Z"]
 ALPHA = ["A(0)", "A(1)", "S(%d,0)", "S(%d,1)", "T(0,1)", "T(1,1)", "T(0,0)", "W(0)", "W(1)", "R(%d,0)", "R(%d,1)", "C(0)"]
 
 
